@@ -97,6 +97,27 @@ injections = st.lists(
 )
 
 
+rinjections = st.lists(
+    st.fixed_dictionaries({
+        'w': st.integers(0, 8), 'recv': st.integers(1, 20),
+        'line': st.integers(0, 30),
+    }), min_size=0, max_size=3,
+)
+
+
+def resolve_rinjections(inj, worker_names):
+    """plans for main-thread steps inside a worker's incoming handler"""
+    seen = set()
+    out = []
+    for x in inj:
+        w = worker_names[x['w'] % len(worker_names)]
+        if (w, x['recv']) in seen:
+            continue
+        seen.add((w, x['recv']))
+        out.append({'worker': w, 'recv': x['recv'], 'line': x['line']})
+    return out
+
+
 def resolve_injections(inj, worker_names):
     """-> sorted plans the simulator understands (one per (worker, step))."""
     seen = set()
@@ -183,3 +204,87 @@ def client_error(e: BaseException):
         )
     text = e.args[0] if e.args else ''
     return ('client_error|' + classify_error(text), str(text)[-900:])
+
+
+# ------------------------------------------- single pre-emption enumeration
+def enum_preemptions(progs, bases, nws, kmax=2, extra=None):
+    """Every single pre-emption point (worker step x source line x k) at
+    which at least one message is pending for the stepping worker, for each
+    fixed program under each base (policy, schedule) and worker count.  The
+    base run is executed first to find those steps."""
+    import logging
+    from vt.simrt import programs as P
+    from vt.simrt.sim import Sim, make_root_task, SimSignal
+    from bqskit.runtime.message import RuntimeMessage as M
+    logging.disable(logging.CRITICAL)
+    for prog in progs:
+        spec = normalise(prog)
+        for policy, sched in bases:
+            for nw in nws:
+                P.reset()
+                sim = Sim({'workers': nw}, sched, policy=policy)
+                try:
+                    comp = sim.compiler()
+                    task = make_root_task(spec)
+                    comp._send(M.SUBMIT, task)
+                    comp.result(task.task_id)
+                    sim.drain()
+                except (SimSignal, RuntimeError):
+                    pass
+                finally:
+                    sim.close()
+                names = sorted(sim.workers)
+                for (w, step, pending) in sim.step_info:
+                    if pending == 0:
+                        continue
+                    for line in range(0, 100):
+                        for k in range(1, min(pending, kmax) + 1):
+                            case = {
+                                'prog': prog, 'topo': {'workers': nw},
+                                'sched': sched, 'policy': policy,
+                                'inject': [{'w': names.index(w), 'step': step,
+                                            'line': line, 'k': k}],
+                            }
+                            case.update(extra or {})
+                            yield case
+
+
+def enum_rpreemptions(progs, bases, nws, names=('SUBMIT', 'SUBMIT_BATCH'),
+                      extra=None, lines=32):
+    """Every single point (n-th message of a worker x source line of its
+    handler) at which the worker's MAIN thread takes a step while the
+    incoming thread is inside the handler of a message named in ``names``."""
+    import logging
+    from vt.simrt import programs as P
+    from vt.simrt.sim import Sim, make_root_task, SimSignal
+    from bqskit.runtime.message import RuntimeMessage as M
+    logging.disable(logging.CRITICAL)
+    for prog in progs:
+        spec = normalise(prog)
+        for policy, sched in bases:
+            for nw in nws:
+                P.reset()
+                sim = Sim({'workers': nw}, sched, policy=policy)
+                try:
+                    comp = sim.compiler()
+                    task = make_root_task(spec)
+                    comp._send(M.SUBMIT, task)
+                    comp.result(task.task_id)
+                    sim.drain()
+                except (SimSignal, RuntimeError):
+                    pass
+                finally:
+                    sim.close()
+                wn = sorted(sim.workers)
+                for (w, nth, mname) in sim.recv_info:
+                    if mname not in names:
+                        continue
+                    for line in range(lines):
+                        case = {
+                            'prog': prog, 'topo': {'workers': nw},
+                            'sched': sched, 'policy': policy,
+                            'rinject': [{'w': wn.index(w), 'recv': nth,
+                                         'line': line}],
+                        }
+                        case.update(extra or {})
+                        yield case
